@@ -2,6 +2,7 @@ package props
 
 import (
 	"bytes"
+	"crypto/tls"
 	"fmt"
 	"strings"
 	"sync/atomic"
@@ -166,6 +167,9 @@ type httpFaultSpec struct {
 	Lat             time.Duration
 	Chunk           int
 	FollowRedirects bool // the client's redirect option
+	// SSL: the gun's ssl option against a peer that speaks TLS; TLSHang: every third connection the peer accepts never
+	// answers the ClientHello, so the handshake runs into the client's tls-handshake-timeout (1 s)
+	SSL, TLSHang bool
 	// diagnostics of the gun that read or rewrite the request and the response on the way
 	Trace, Dump bool
 	AnswLog     string // "", all, warning, error
@@ -207,6 +211,10 @@ func genHTTPFaultSpec(r *R, faults bool) httpFaultSpec {
 	sp.Lat = []time.Duration{100 * time.Microsecond, 2 * time.Millisecond, 30 * time.Millisecond}[w.Draw(3)]
 	sp.Chunk = []int{0, 0, 1, 13, 500}[w.Draw(5)]
 	sp.FollowRedirects = w.Bool()
+	if sp.Gun != "connect" && w.Draw(4) == 0 {
+		sp.SSL = true
+		sp.TLSHang = f.Draw(2) == 0
+	}
 	if w.Draw(3) == 0 {
 		sp.Trace, sp.Dump = w.Bool(), w.Bool()
 		sp.AnswLog = []string{"", "all", "warning", "error"}[w.Draw(4)]
@@ -248,7 +256,7 @@ func (sp httpFaultSpec) describe() map[string]any {
 		bs = append(bs, fmt.Sprintf("%s/%d", b.Kind, b.Status))
 	}
 	return map[string]any{"entries": sp.Entries, "passes": sp.Passes, "instances": sp.Inst, "gun": sp.Gun, "auto_tag": sp.AutoTag, "uri_elements": sp.URIElems, "no_tag_only": sp.NoTagOnly,
-		"keep_alive": sp.KeepAlive, "tags": sp.Tags, "paths": sp.Paths, "methods": sp.Methods, "peer": bs, "conn_faults": sp.ConnFaults, "format": sp.Format, "latency": sp.Lat.String(), "chunk": sp.Chunk, "follow_redirects": sp.FollowRedirects, "httptrace": fmt.Sprintf("trace=%v dump=%v", sp.Trace, sp.Dump), "answlog": sp.AnswLog}
+		"keep_alive": sp.KeepAlive, "tags": sp.Tags, "paths": sp.Paths, "methods": sp.Methods, "peer": bs, "conn_faults": sp.ConnFaults, "format": sp.Format, "latency": sp.Lat.String(), "chunk": sp.Chunk, "follow_redirects": sp.FollowRedirects, "ssl": sp.SSL, "tls_hang_every_third_conn": sp.TLSHang, "httptrace": fmt.Sprintf("trace=%v dump=%v", sp.Trace, sp.Dump), "answlog": sp.AnswLog}
 }
 
 func runHTTPFaults(r *R, sp httpFaultSpec) *httpFaultOutcome {
@@ -286,6 +294,10 @@ func runHTTPFaults(r *R, sp httpFaultSpec) *httpFaultOutcome {
 		"dial":     map[string]interface{}{"timeout": "1s"},
 		"auto-tag": map[string]interface{}{"enabled": sp.AutoTag, "uri-elements": sp.URIElems, "no-tag-only": sp.NoTagOnly}}
 	gun["redirect"] = sp.FollowRedirects
+	if sp.SSL {
+		gun["ssl"] = true
+		gun["tls-handshake-timeout"] = "1s"
+	}
 	if sp.Trace || sp.Dump {
 		gun["httptrace"] = map[string]interface{}{"trace": sp.Trace, "dump": sp.Dump}
 	}
@@ -322,6 +334,15 @@ func runHTTPFaults(r *R, sp httpFaultSpec) *httpFaultOutcome {
 			}
 		},
 		func(nw *simnet.Net) {
+			defer func() {
+				if sp.SSL && peer != nil {
+					cert := testCert()
+					peer.TLS = &tls.Config{Certificates: []tls.Certificate{cert}, NextProtos: []string{"http/1.1"}}
+					if sp.TLSHang {
+						peer.HangTLS = func(k int) bool { return k%3 == 1 }
+					}
+				}
+			}()
 			peer = startRawPeer(nw, target, func(n int, s *seenReq) rawAction {
 				if s.Method == "CONNECT" {
 					if s.N%3 == 1 && strings.HasPrefix(sp.ConnFaults, "connect-") {
